@@ -41,6 +41,10 @@ Skip        == UNCHANGED vars
 StrictOpenError == \/ (pc = <<"failed">> /\ Skip)
                    \/ (\E d \in DBs : At(d, "alter") /\ T[d].cols = 2 /\ PAlter(d))
 
+(* Database.close() commits a transaction that is still open (kept by a failed COMMIT, left by an abandoned block) *)
+(* before it closes: PExit of the program layer, seen as two events                                              *)
+StrictCloseCommit(d) == /\ pc = <<"idle">> /\ l < Len(Ev) /\ Ev[l + 1].a \in {"Exit", "Commit"}
+                        /\ DbCommit(d) /\ UNCHANGED <<pc, calls, recs, legacy, pend, batches, faults>>
 StrictFail(d, rb) == (\E i \in Recs : DbOf(i) = d /\ PCommitFail(i, rb)) \/ PLeaveCommitFail(d, rb)
 
 Event(e) ==
@@ -48,6 +52,7 @@ Event(e) ==
   \/ /\ e.a = "ReadVersion" /\ IF Strict THEN PReadVersion(e.d) ELSE up /\ Skip
   \/ /\ e.a = "Begin"       /\ Step(DbBegin(e.d), POpenBegin(e.d) \/ \E i \in Recs : DbOf(i) = e.d /\ PBegin(i))
   \/ /\ e.a = "Commit"      /\ Step(DbCommit(e.d), \/ POpenCommit(e.d) \/ (inTxn[e.d] /\ PLeaveCommit(e.d))
+                                                    \/ StrictCloseCommit(e.d)
                                                     \/ \E i \in Recs : DbOf(i) = e.d /\ pend[e.d] = 0 /\ PCommit(i))
   \/ /\ e.a = "Rollback"    /\ ~Strict /\ Lib(DbRollback(e.d))
   \/ /\ e.a = "CreateData"  /\ Step(DbCreateData(e.d), PCreateData(e.d) \/ (At(e.d, "copt") /\ T[e.d].data /\ Skip))
@@ -57,7 +62,7 @@ Event(e) ==
   \/ /\ e.a = "SetVer"      /\ ~Strict /\ Lib(DbSetVer(e.d))
   \/ /\ e.a = "Alter"       /\ Step(DbAlter(e.d), PAlter(e.d))
   \/ /\ e.a = "Update"      /\ Step(DbUpdate(e.d), PUpdate(e.d))
-  \/ /\ e.a = "Call"        /\ e.r \in Recs /\ IF Strict THEN PCall(e.r) ELSE up /\ Skip
+  \/ /\ e.a = "Call"        /\ e.r \in Recs /\ IF Strict THEN PCall(e.r) /\ pc'[4] = e.v ELSE up /\ Skip
   (* e.v: which of the forms (byte strings) written under this primary key the statement carries; e.mode: the  *)
   (* conflict clause of the INSERT                                                                              *)
   \/ /\ e.a = "Exec"        /\ e.r \in Recs /\ Step(DbExecute(e.r, e.v, e.mode),
